@@ -44,22 +44,24 @@ Init ==
            dangling |-> [k \in 1..Len(ds) |-> MkUse(ds[k])],
            zones |-> [k \in 1..Len(zc) |-> RR(zc[k])]]
 
-Inc(rl) == RR(rl.cpu + 1)
+\* the raise steps of the trace vocabulary (Reclaim!ApplyRaise), one unit (ThrStep for the margin) at a time
+Ev(w, k, d) == [what |-> w, k |-> k, by |-> RR(d)]
+Allowed(e) ==
+  CASE e.what = "sys"      -> inp.sys.cpu < MaxSys
+    [] e.what = "kres"     -> inp.cap.cpu - inp.alloc.cpu < MaxKRes
+    [] e.what = "anno"     -> inp.anno.cpu < MaxAnno
+    [] e.what = "margin"   -> inp.thr.cpu - ThrStep >= MinThr
+    [] e.what = "app"      -> inp.apps[e.k].use.cpu < MaxApp
+    [] e.what = "req"      -> inp.pods[e.k].req.cpu < MaxReq
+    [] e.what = "use"      -> inp.pods[e.k].use.cpu < MaxUse
+    [] e.what = "dangling" -> inp.dangling[e.k].use.cpu < MaxDang
+Steps ==
+  {Ev("sys", 0, 1), Ev("kres", 0, 1), Ev("anno", 0, 1), Ev("margin", 0, ThrStep)}
+  \cup {Ev("app", k, 1) : k \in 1..Len(inp.apps)}
+  \cup {Ev(w, k, 1) : w \in {"req", "use"}, k \in 1..Len(inp.pods)}
+  \cup {Ev("dangling", k, 1) : k \in 1..Len(inp.dangling)}
 
-RaiseSys  == inp.sys.cpu < MaxSys /\ inp' = [inp EXCEPT !.sys = Inc(@)]
-RaiseKRes == inp.cap.cpu - inp.alloc.cpu < MaxKRes /\ inp.alloc.cpu > 0 /\ inp' = [inp EXCEPT !.alloc = RR(@.cpu - 1)]
-RaiseAnno == inp.anno.cpu < MaxAnno /\ inp' = [inp EXCEPT !.anno = Inc(@)]
-RaiseMargin == inp.thr.cpu - ThrStep >= MinThr /\ inp' = [inp EXCEPT !.thr = RR(@.cpu - ThrStep)]
-RaiseApp(k) == inp.apps[k].use.cpu < MaxApp /\ inp' = [inp EXCEPT !.apps[k].use = Inc(@)]
-RaiseReq(k) == inp.pods[k].req.cpu < MaxReq /\ inp' = [inp EXCEPT !.pods[k].req = Inc(@)]
-RaiseUse(k) == inp.pods[k].metric /\ inp.pods[k].use.cpu < MaxUse /\ inp' = [inp EXCEPT !.pods[k].use = Inc(@)]
-RaiseDang(k) == inp.dangling[k].use.cpu < MaxDang /\ inp' = [inp EXCEPT !.dangling[k].use = Inc(@)]
-
-Next ==
-  \/ RaiseSys \/ RaiseKRes \/ RaiseAnno \/ RaiseMargin
-  \/ \E k \in 1..Len(inp.apps) : RaiseApp(k)
-  \/ \E k \in 1..Len(inp.pods) : RaiseReq(k) \/ RaiseUse(k)
-  \/ \E k \in 1..Len(inp.dangling) : RaiseDang(k)
+Next == \E e \in Steps : RaiseOK(inp, e) /\ Allowed(e) /\ inp' = ApplyRaise(inp, e)
 
 Spec == Init /\ [][Next]_vars
 
@@ -88,19 +90,22 @@ ScenQuick ==
   \cup Scen({<<>>, <<ProdLSm>>}, {<<"prod">>, <<"batch">>}, {<<>>}, {<<>>, <<3, 3>>})
   \cup Scen({<<>>}, {<<>>}, {<<"prod">>, <<"batch">>}, {<<>>})
 
-\* thorough: every kind / phase / binding alone over 0, 1 (uneven: one zone = whole node) and 2 zones; pairs of pods;
-\* dangling metrics and host applications of every priority next to a pod
-ScenThorough ==
+\* thorough (MC_thorough.cfg): every kind / phase alone over 0 and 1 zone (one zone = whole node); kinds bound to
+\* zones of uneven size; dangling metrics and host applications of every priority next to no pod or an ordinary one
+ScenSingles ==
   Scen({<<>>} \cup {<<s>> : s \in ShapesOf(KindsAll, {"Running", "Pending", "Succeeded"}, {<<>>})}, {<<>>}, {<<>>}, {<<>>, <<6>>})
-  \cup Scen({<<s>> : s \in ShapesOf(KindsAll, {"Running", "Succeeded"}, {<<>>, <<0>>, <<1>>, <<0, 1>>})}, {<<>>}, {<<>>}, {<<4, 2>>})
-  \cup Scen({<<s, t>> : s \in ShapesOf({<<"prod", "LS">>, <<"prod", "LSE">>}, {"Running"}, {<<>>, <<0>>}),
-                         t \in ShapesOf({<<"prod", "LS">>, <<"mid", "LS">>, <<"batch", "BE">>}, {"Running", "Succeeded"}, {<<>>})},
-          {<<>>}, {<<>>}, {<<>>, <<3, 3>>})
+  \cup Scen({<<s>> : s \in ShapesOf(KindsSmall, {"Running", "Succeeded"}, {<<>>, <<0>>, <<1>>, <<0, 1>>})}, {<<>>}, {<<>>}, {<<4, 2>>})
   \cup Scen({<<>>, <<ProdLSm>>}, {<<"prod">>, <<"batch">>, <<"none">>, <<"mid">>, <<"free">>, <<"prod", "batch">>},
           {<<>>, <<"prod">>}, {<<>>, <<3, 3>>})
   \cup Scen({<<>>, <<ProdLSm>>}, {<<>>}, {<<"prod">>, <<"mid">>, <<"batch">>, <<"prod", "batch">>}, {<<>>, <<3, 3>>})
+\* thorough (MC_pairs.cfg): two pods, interaction of the sums
+ScenPairs ==
+  Scen({<<s, t>> : s \in ShapesOf({<<"prod", "LS">>, <<"prod", "LSE">>}, {"Running"}, {<<>>}),
+                   t \in ShapesOf({<<"prod", "LS">>, <<"mid", "LS">>, <<"batch", "BE">>}, {"Running"}, {<<>>})
+                          \cup {Shape("prod", "LS", "Succeeded", TRUE, <<>>)}},
+       {<<>>}, {<<>>}, {<<>>, <<3, 3>>})
 
 AgesAll == {0, 60, 61, -1}
 PctsQuick == {-1, 50}
-PctsAll == {-1, 0, 50, 100}
+PctsAll == {-1, 0, 50}
 =============================================================================
